@@ -61,7 +61,7 @@ def work(job):
 def programs(tier, seed):
     jobs = []
     fams = [("f_plain", 1 if tier == "thorough" else 3), ("f_shape", 1 if tier == "thorough" else 4),
-            ("f_occ", 1 if tier == "thorough" else 3), ("f_affine", 1), ("f_cascade", 1), ("f_st", 1)]
+            ("f_occ", 1 if tier == "thorough" else 3), ("f_affine", 1), ("f_cascade", 1), ("f_st", 1), ("f_rand", 1)]
     for fam, step in fams:
         specs = getattr(specgen, fam)(tier, seed)
         off = seed % step
